@@ -62,4 +62,17 @@ CLAIMED = {
              '(fuel-less) loops with the model count on every request incl. MIN/MAX/1ulp. The unbounded range-reduction loops were repaired in /repo (fix c0749e7).',
         design_ref='7/C17', note=COMMON_NOTE + ' Hook: thread-local counter incremented in each loop body of transcendental.rs under the guard.',
         technique='Lean 4 proof (structural tick bounds) over executable model + hook-counter correspondence'),
+    'C03': dict(
+        text='Theorems SfxProps.C03.fixed_holds / float_holds (full strength): for EVERY ordered pair of valid layouts (integers = zero-fraction layouts, both operand orders) '
+             'partial_cmp and the six operators equal the comparison of the exact values; for f32/f64 finite floats compare by exact value in both operand orders, NaN is unordered '
+             'and unequal, infinities lie outside; same-type Ord/Eq (and Hash, derived from the bits) coincide with the value order. Four defects found by this check were repaired '
+             'in /repo (sign of converted bits, top binade/NaN, subnormal scale, -0.0). Correspondence: typed operators for every family pair x {0,mid,n}^2, 12 integer types, f32/f64.',
+        design_ref='7/C03', note=COMMON_NOTE + ' Hash equality is checked through DefaultHasher in the harness only.', technique='Lean 4 proof over executable model + differential correspondence'),
+    'C13': dict(
+        text='Theorem SfxProps.C13.holds (full strength over the model): for every supported source/destination pair (same type or a widening admitted by From; >= 4 fractional '
+             'bits and three magnitude bits above the point, which covers every type of the quantifier) and EVERY operand: no panic and no debug-only check; Err only for negative operands or '
+             'operands in (0,1) whose reciprocal is not representable; otherwise 0 <= r and (r-4)^2 <= X <= (r+4)^2 (exact integer bracket = 4 ulp), exact at 0 and 1; on the direct path the '
+             'result is within ONE ulp. Proof: the loop is the integer Newton iteration; halving phase + quadratic phase convergence within int_bits/2+8 steps (the code runs >= int_bits/2+10 '
+             'after fix d5514a8, which this check motivated). Correspondence + exact bracket verdict in the driver + mpmath search oracle.',
+        design_ref='7/C13', note=COMMON_NOTE + ' mpmath is used only to search for failing inputs.', technique='Lean 4 proof (integer Newton convergence) over executable model + differential correspondence'),
 }
